@@ -611,3 +611,24 @@ func (in *Interp) floatBinop(op token.Token, x, y Value) (Value, bool) {
 	}
 	return Value{}, false
 }
+
+func init() {
+	minmax := func(max bool) ixFn {
+		return func(in *Interp, fr *Frame, a []Value) (Value, bool) {
+			x, ok1 := a[0].R.(*floatI)
+			y, ok2 := a[1].R.(*floatI)
+			if !ok1 || !ok2 {
+				return Value{K: KOpaque, R: poison("math.Max/Min of a float that is not an integer converted to float64")}, true
+			}
+			c := in.Ctx
+			lt, _ := in.floatLtEq(x, y)
+			pickY := lt // Max: y when x < y
+			if !max {
+				pickY, _ = in.floatLtEq(y, x) // Min: y when y < x
+			}
+			return Value{K: KOpaque, R: &floatI{neg: c.Ite(pickY, y.neg, x.neg), mag: c.Ite(pickY, y.mag, x.mag)}}, true
+		}
+	}
+	intrinsics["math.Max"] = minmax(true)
+	intrinsics["math.Min"] = minmax(false)
+}
